@@ -51,7 +51,7 @@ impl Prop for C12 {
     fn families(&self, tier: Tier) -> Vec<Family<Case>> {
         let mut f = Vec::new();
         let pairs = same_kind_pairs();
-        let amounts: Vec<&'static str> = tier.pick(vec!["1", "2.5"], vec!["1", "2.5", "1000", "0.001", "123456", "0", "7", "0.5", "999.995", "1000000.75", "12.5", "0.000001"]);
+        let amounts: Vec<&'static str> = tier.pick(vec!["1", "2.5", "0"], vec!["1", "2.5", "1000", "0.001", "123456", "0", "7", "0.5", "999.995", "1000000.75", "12.5", "0.000001"]);
         {
             let (pairs, amounts, convs) = (pairs.clone(), amounts.clone(), convs(tier));
             f.push(Family::new(
@@ -122,6 +122,32 @@ impl Prop for C12 {
                     let conn = *ch.pick(&["to", "as", "into"]);
                     let want = a * UNITS[i].factor / UNITS[j].factor;
                     Some(Case::Line(LineCase::new(format!("{} {} {} {}", at, s, conn, t), Expect::Value(unit_val(want, &UNITS[j]), 1e-9), "spelling-pair")))
+                },
+            ));
+        }
+        {
+            let pairs = pairs.clone();
+            f.push(Family::new(
+                "side-by-side",
+                Mode::Full,
+                "two and three quantities written side by side without an operator, '500 A 1 B' and '2 A 3 A 4 B', for every ordered same-kind pair (also the smaller unit first, also the same unit twice), and 'x = 500 A 1 B / x to A': they are added, in the first quantity's unit",
+                move |ch| {
+                    let (i, j) = *ch.pick(&pairs);
+                    let (ua, ub) = (&UNITS[i], &UNITS[j]);
+                    match ch.choose(3) {
+                        0 => {
+                            let want = 500.0 + 1.0 * ub.factor / ua.factor;
+                            Some(Case::Line(LineCase::new(format!("500 {} 1 {}", ua.short, ub.short), Expect::Value(unit_val(want, ua), 1e-9), "side-by-side")))
+                        }
+                        1 => {
+                            let want = 2.0 + 3.0 + 4.0 * ub.factor / ua.factor;
+                            Some(Case::Line(LineCase::new(format!("2 {} 3 {} 4 {}", ua.short, ua.short, ub.short), Expect::Value(unit_val(want, ua), 1e-9), "side-by-side-3")))
+                        }
+                        _ => {
+                            let want = 500.0 + 1.0 * ub.factor / ua.factor;
+                            Some(Case::Line(LineCase::new(format!("x = 500 {} 1 {}\nx to {}", ua.short, ub.short, ua.short), Expect::Value(unit_val(want, ua), 1e-9), "side-by-side-var")))
+                        }
+                    }
                 },
             ));
         }
